@@ -53,10 +53,11 @@ func c13Model(e *model.Eff, body *hclsyntax.Body, parent []lang.SemanticTokenMod
 			continue
 		}
 		var as *schema.AttributeSchema
-		if own, ok := e.Attributes[name]; ok {
-			as = own
-		} else if (name == "count" && e.Ext.Count) || (name == "for_each" && e.Ext.ForEach) {
+		if (name == "count" && e.Ext.Count) || (name == "for_each" && e.Ext.ForEach) {
+			// an enabled extension precedes a declared attribute of the same name - in every feature (C16)
 			as = &schema.AttributeSchema{}
+		} else if own, ok := e.Attributes[name]; ok {
+			as = own
 		} else {
 			as = e.Any
 		}
